@@ -1,29 +1,37 @@
 ------------------------------- MODULE AbsSet -------------------------------
 (* C04 C13: sets.  State = sequence of members in enumeration order.          *)
 EXTENDS Common
-Hit(cfg, s, x) == \E i \in DOMAIN s : KeyEq(cfg, s[i], x)
-RECURSIVE AddAll(_, _, _), RemoveAll(_, _, _)
+\* the key of a member: what the kind's own equality looks at (Go == or the comparator's rank);  KeyEq(cfg, a, b) <=> KeyOf(cfg, a) = KeyOf(cfg, b)
+KeyOf(cfg, x)  == IF cfg.sorted THEN Rank(cfg.cmp, x) ELSE x
+KeySet(cfg, s) == {KeyOf(cfg, s[i]) : i \in DOMAIN s}
+Hit(cfg, s, x) == KeyOf(cfg, x) \in KeySet(cfg, s)
+NoDupKeys(cfg, s) == Cardinality(KeySet(cfg, s)) = Len(s)
 \* canonical post for linked / sorted kinds (deterministic); hash kinds are compared as sets
 AddOne(cfg, s, x) ==
   IF Hit(cfg, s, x) THEN s
   ELSE IF cfg.sorted THEN LET p == Cardinality({i \in DOMAIN s : Cmp(cfg.cmp, s[i], x) < 0}) IN SpliceAt(s, p, <<x>>)
   ELSE Append(s, x)
-AddAll(cfg, s, xs) == IF xs = <<>> THEN s ELSE AddAll(cfg, AddOne(cfg, s, Head(xs)), Tail(xs))
+\* AddAll = AddOne folded over the arguments, left to right; the accumulator carries the key set (argument lists of thousands)
+AddStep(cfg, acc, x) ==
+  LET k == KeyOf(cfg, x) IN
+  IF k \in acc.keys THEN acc
+  ELSE [seq  |-> IF cfg.sorted THEN LET p == Cardinality({i \in DOMAIN acc.seq : Cmp(cfg.cmp, acc.seq[i], x) < 0}) IN SpliceAt(acc.seq, p, <<x>>)
+                 ELSE Append(acc.seq, x),
+        keys |-> TLCEval(acc.keys \cup {k})]
+AddAll(cfg, s, xs) == FoldLeft(LAMBDA acc, x : AddStep(cfg, acc, x), [seq |-> s, keys |-> KeySet(cfg, s)], xs).seq
 RemoveOne(cfg, s, x) == SelectSeq(s, LAMBDA y : ~KeyEq(cfg, y, x))
-RemoveAll(cfg, s, xs) == IF xs = <<>> THEN s ELSE RemoveAll(cfg, RemoveOne(cfg, s, Head(xs)), Tail(xs))
+RemoveAll(cfg, s, xs) == LET K == KeySet(cfg, xs) IN SelectSeq(s, LAMBDA y : KeyOf(cfg, y) \notin K)
 \* which representative of comparator-equal members is kept is free: compare modulo KeyEq
 SameSet(cfg, s, t) ==
   /\ Len(s) = Len(t)
   /\ IF cfg.sorted \/ cfg.linked THEN \A i \in DOMAIN s : KeyEq(cfg, s[i], t[i])
      ELSE Members(s) = Members(t)
-ContainsRet(cfg, s, xs) == \A i \in DOMAIN xs : Hit(cfg, s, xs[i])
-\* C13 algebra on two operands (possibly the same object); result order: sorted for TreeSet, free otherwise
-InterOK(cfg, a, b, r) == /\ \A x \in Members(r) : Hit(cfg, a, x) /\ Hit(cfg, b, x)
-                         /\ \A x \in Members(a) : Hit(cfg, b, x) => Hit(cfg, r, x)
-UnionOK(cfg, a, b, r) == /\ \A x \in Members(r) : Hit(cfg, a, x) \/ Hit(cfg, b, x)
-                         /\ \A x \in Members(a) \cup Members(b) : Hit(cfg, r, x)
-DiffOK(cfg, a, b, r)  == /\ \A x \in Members(r) : Hit(cfg, a, x) /\ ~Hit(cfg, b, x)
-                         /\ \A x \in Members(a) : ~Hit(cfg, b, x) => Hit(cfg, r, x)
-ResultWF(cfg, r) == /\ \A i, j \in DOMAIN r : KeyEq(cfg, r[i], r[j]) => i = j
+ContainsRet(cfg, s, xs) == LET K == KeySet(cfg, s) IN \A i \in DOMAIN xs : KeyOf(cfg, xs[i]) \in K
+\* C13 algebra on two operands (possibly the same object); result order: sorted for TreeSet, free otherwise.
+\* (r's members are members of an operand up to the kind's equality: which representative is free)
+InterOK(cfg, a, b, r) == KeySet(cfg, r) = KeySet(cfg, a) \cap KeySet(cfg, b)
+UnionOK(cfg, a, b, r) == KeySet(cfg, r) = KeySet(cfg, a) \cup KeySet(cfg, b)
+DiffOK(cfg, a, b, r)  == KeySet(cfg, r) = KeySet(cfg, a) \ KeySet(cfg, b)
+ResultWF(cfg, r) == /\ NoDupKeys(cfg, r)
                     /\ (cfg.sorted => Ascending(cfg.cmp, r))
 =============================================================================
